@@ -129,9 +129,15 @@ func (r *requestContext) rewriteRequest(targetURL *url.URL) func(req *httputil.P
 		proxyReq.Out.Header.Del("X-Forwarded-Uri")
 		proxyReq.Out.Header.Del("X-Forwarded-Path")
 
+		// a header may have been set multiple times (with different values) by the pipeline.
+		// same-named headers sent by the client are replaced
 		uh := r.UpstreamHeaders()
-		for k := range uh {
-			proxyReq.Out.Header.Set(k, uh.Get(k))
+		for k, values := range uh {
+			proxyReq.Out.Header.Del(k)
+
+			for _, value := range values {
+				proxyReq.Out.Header.Add(k, value)
+			}
 		}
 
 		if host := uh.Get("Host"); len(host) != 0 {
